@@ -98,6 +98,9 @@ type Config struct {
 	SwitchCase func(sw *ast.SwitchStmt) int
 	// Inline returns the body of a call to follow (same-receiver helper), or nil.
 	Inline func(call *ast.CallExpr) *ast.BlockStmt
+	// Expand rewrites a condition before it is split into atoms (boolean helper predicates replaced
+	// by their defining expression); nil = identity.
+	Expand func(cond ast.Expr) ast.Expr
 	MaxPaths  int
 	MaxInline int
 }
@@ -191,6 +194,9 @@ func (e *enumerator) cond(c ast.Expr, p Path, depth int, k func(p Path, val bool
 	if c == nil {
 		k(p, true)
 		return
+	}
+	if e.c.Expand != nil {
+		c = e.c.Expand(c)
 	}
 	if e.c.Fold != nil {
 		if known, val := e.c.Fold(c); known {
